@@ -1,13 +1,13 @@
 SPECIFICATION Spec
 CONSTANTS
-  Class = "stdio"
+  Class = "rdv"
   Ideal = FALSE
   KSet = {"n"}
-  NW <- W20
-  NR <- W02
+  NW <- W21
+  NR <- W12
   NC <- W11
   WMax = 3
   CMax = 2
-INVARIANTS TypeOK Fifo NoSpuriousError NoLoss RestAll ClosedStopsReads
+INVARIANTS TypeOK Fifo NoSpuriousError NoLoss RestAll ClosedStopsReads ClosedStopsWrites
 PROPERTIES ClosedForGood
 CHECK_DEADLOCK FALSE
